@@ -127,6 +127,7 @@ class Ref:
         self.L = len(chain.sites)
         self.finite = ket.finite
         self.cache = {}
+        self.scale = 1.0      # MPSEnvironment: documented to take bra.norm and ket.norm into account
 
     def window(self, lo, hi):
         if self.ket.bc == 'finite' or self.ket.bc == 'segment':
@@ -143,7 +144,7 @@ class Ref:
         sites = [i for _, i in term]
         lo, docs, tb, tk = self.window(min(sites), max(sites))
         O = orc.term_op(docs, [(op, i - lo) for op, i in term])
-        return gen.expect_window(tb, O, tk)
+        return gen.expect_window(tb, O, tk) * self.scale
 
     def words(self, lo, words):
         """words: list (one per site lo, lo+1, ...) of lists of operator names multiplied left to right"""
@@ -151,7 +152,7 @@ class Ref:
         full = [[] for _ in docs]
         for k, w in enumerate(words):
             full[lo + k - lo0] = list(w)
-        return gen.expect_window(tb, orc.product_op(docs, full), tk)
+        return gen.expect_window(tb, orc.product_op(docs, full), tk) * self.scale
 
     def matrix(self, lo, n, M):
         """operator given as a dense matrix in the doc bases acting on sites lo..lo+n-1"""
@@ -159,7 +160,7 @@ class Ref:
         mats = [d.ops['Id'] for d in docs]
         left = orc.kron_all(mats[:lo - lo0])
         right = orc.kron_all(mats[lo - lo0 + n:])
-        return gen.expect_window(tb, np.kron(np.kron(left, M), right), tk)
+        return gen.expect_window(tb, np.kron(np.kron(left, M), right), tk) * self.scale
 
     def rho(self, segment):
         lo0, docs, tb, tk = self.window(min(segment), max(segment))
@@ -659,8 +660,12 @@ def run_state(case):
     if case.get('bra'):     # MPSEnvironment with a different bra (finite)
         from tenpy.networks.mps import MPSEnvironment
         bra, _ = gen.random_finite_mps(rng, ch, cplx=True, chi_max=case['bra'].get('chi_max'), sector=_sector(ch, psi))
+        if case['bra'].get('norms'):
+            bra.norm, psi.norm = [float(x) for x in case['bra']['norms']]
         obj = MPSEnvironment(bra, psi)
     ref = Ref(ch, bra, psi)
+    if case.get('bra'):
+        ref.scale = bra.norm * psi.norm
     out = {'chi': [int(x) for x in psi.chi], 'records': []}
     for m in case['measure']:
         del CALL_LOG[:]
